@@ -26,7 +26,7 @@ class St(ct.Structure):
     _fields_ = [("k", ct.c_uint64), ("mean", ct.c_double), ("s", ct.c_double), ("min", ct.c_double), ("max", ct.c_double)]
 
 
-def routes_for(L, xs, thorough):
+def routes_for(L, xs, thorough, skip32=False):
     """all evaluation routes on the real code; returns list of (name, St)"""
     out = []
     n = len(xs)
@@ -64,7 +64,8 @@ def routes_for(L, xs, thorough):
 
     out.append(("add", addall(reset(), 0, n)))
     out.append(("compute64", compute(0, n)))
-    out.append(("compute32", compute(0, n, True)))
+    if not skip32:
+        out.append(("compute32", compute(0, n, True)))
     splits = range(0, n + 1) if n <= 8 else sorted({0, 1, n // 3, n // 2, n - 1, n})
     for i in splits:
         for alias in ("a", "b", "t"):
@@ -103,6 +104,28 @@ def project(name, s, L):
     return [name, k, mn, mx, sn, sr, qn, qr, int(not (var >= 0.0) or s.s < -1e-6), int(not (s.min - eps <= s.mean <= s.max + eps))]
 
 
+def project_shifted(name, s, L, off):
+    """Projection relative to a large offset: count, min - off, max - off, (mean - off) * k, and k * s (k times the sum of
+    squared deviations, an integer for integer samples) with residuals; the specification compares with the exact
+    values of the small sequence (mean and s are shift invariant)."""
+    k = int(s.k)
+    if k == 0:
+        return [name, 0, 0, 0, 0, 0, 0, 0, 0, 0]
+    var = L.jls_statistics_var(ct.byref(s))
+
+    def res(v):
+        if math.isnan(v) or math.isinf(v) or abs(v) > 2e9:
+            return 0, 10 ** 9
+        return int(round(v)), int(min(10 ** 9, round(abs(v - round(v)) * 1e9)))
+
+    sn, sr = res((s.mean - off) * k)
+    dn, dr = res(s.s * k)
+    mn = int(s.min - off) if abs(s.min - off) < 2e9 and float(s.min).is_integer() else 999999999
+    mx = int(s.max - off) if abs(s.max - off) < 2e9 and float(s.max).is_integer() else 999999999
+    eps = 1e-9 * max(1.0, abs(s.mean))
+    return [name, k, mn, mx, sn, sr, dn, dr, int(not (var >= 0.0) or s.s < -1e-6), int(not (s.min - eps <= s.mean <= s.max + eps))]
+
+
 def run(tier):
     ck = C.Check("C20")
     rng = random.Random(C.seed() * 7919 + 20)
@@ -130,44 +153,69 @@ def run(tier):
     L.jls_statistics_compute_f64.argtypes = [ct.POINTER(St), ct.POINTER(ct.c_double), ct.c_uint64]
     L.jls_statistics_compute_f32.argtypes = [ct.POINTER(St), ct.POINTER(ct.c_float), ct.c_uint64]
     trace = os.path.join(sc, "stats.ndjson")
-    x = 0
-    nroutes = 0
-    with open(trace, "w") as f:
-        def emit(ev, xs):
-            nonlocal x, nroutes
-            x += 1
-            ev["x"] = x
-            ev["e"] = "StatsRoute"
-            ev["routes"] = [project(nm, s, L) for nm, s in routes_for(L, xs, thorough)]
-            nroutes += len(ev["routes"])
-            f.write(json.dumps(ev, separators=(",", ":")) + "\n")
-        for xs in seqs:
-            emit({"kind": "seq", "xs": xs, "p": 0, "a": 0, "n": 0}, xs)
-        # seeded longer sequences: constant, alternating, small random, offset
-        for i in range(300 if thorough else 80):
-            n = rng.choice([7, 8, 9, 16, 33, 100, 250])
-            style = i % 4
-            if style == 0:
-                xs = [rng.choice([-5, 0, 7])] * n
-            elif style == 1:
-                xs = [(-1) ** j * rng.choice([1, 3]) for j in range(n)]
-            elif style == 2:
-                xs = [rng.randint(-100, 100) for _ in range(n)]
-            else:
-                off = rng.choice([1000, -1000])
-                xs = [off + rng.randint(-3, 3) for _ in range(n)]
-            emit({"kind": "seq", "xs": xs, "p": 0, "a": 0, "n": 0}, xs)
-        # structured streams of up to 10^4 samples (closed-form truth)
-        for i in range(40 if thorough else 12):
-            kind = rng.choice(["ramp", "bit"])
-            p = rng.choice([2, 3, 7, 13]) if kind == "ramp" else rng.choice([2, 3, 5, 9])
-            n = rng.choice([1000, 4096, 10000])
-            a = rng.randint(0, 50)
-            if kind == "ramp":
-                xs = [(a + j) % p for j in range(n)]
-            else:
-                xs = [1 if ((a + j) % p) < (p + 1) // 2 else 0 for j in range(n)]
-            emit({"kind": kind, "xs": [], "p": p, "a": a, "n": n}, xs)
+
+    def feed():
+        # in a forked child: a fault of the functions under test is a finding, not a tool failure
+        x = 0
+        nroutes = 0
+        with open(trace, "w") as f:
+            def emit(ev, xs):
+                nonlocal x, nroutes
+                x += 1
+                ev["x"] = x
+                ev["e"] = "StatsRoute"
+                ev["routes"] = [project(nm, s, L) for nm, s in routes_for(L, xs, thorough)]
+                nroutes += len(ev["routes"])
+                f.write(json.dumps(ev, separators=(",", ":")) + "\n")
+            for xs in seqs:
+                emit({"kind": "seq", "xs": xs, "p": 0, "a": 0, "n": 0}, xs)
+            # seeded longer sequences: constant, alternating, small random, offset
+            for i in range(300 if thorough else 80):
+                n = rng.choice([7, 8, 9, 16, 33, 100, 250])
+                style = i % 4
+                if style == 0:
+                    xs = [rng.choice([-5, 0, 7])] * n
+                elif style == 1:
+                    xs = [(-1) ** j * rng.choice([1, 3]) for j in range(n)]
+                elif style == 2:
+                    xs = [rng.randint(-100, 100) for _ in range(n)]
+                else:
+                    off = rng.choice([1000, -1000])
+                    xs = [off + rng.randint(-3, 3) for _ in range(n)]
+                emit({"kind": "seq", "xs": xs, "p": 0, "a": 0, "n": 0}, xs)
+            # large offsets (shift invariance): small integer spread around +-3e7 .. +-1e9; a formula that loses the
+            # deviations in the magnitude of the samples (sum of squares minus k * mean^2) is off by percents here
+            for i in range(120 if thorough else 40):
+                n = rng.choice([2, 3, 8, 33, 100, 250])
+                off = rng.choice([30000000, -30000000, 100000000, -100000000, 1000000000, -1000000000])
+                small = [rng.randint(-3, 3) for _ in range(n)]
+                xs = [off + v for v in small]
+                x += 1
+                ev = {"kind": "shift", "xs": small, "p": 0, "a": off, "n": 0, "x": x, "e": "StatsRoute",
+                      "routes": [project_shifted(nm, st_, L, off) for nm, st_ in routes_for(L, [float(v) for v in xs], thorough, skip32=True)]}
+                nroutes += len(ev["routes"])
+                f.write(json.dumps(ev, separators=(",", ":")) + "\n")
+            # structured streams of up to 10^4 samples (closed-form truth)
+            for i in range(40 if thorough else 12):
+                kind = rng.choice(["ramp", "bit"])
+                p = rng.choice([2, 3, 7, 13]) if kind == "ramp" else rng.choice([2, 3, 5, 9])
+                n = rng.choice([1000, 4096, 10000])
+                a = rng.randint(0, 50)
+                if kind == "ramp":
+                    xs = [(a + j) % p for j in range(n)]
+                else:
+                    xs = [1 if ((a + j) % p) < (p + 1) // 2 else 0 for j in range(n)]
+                emit({"kind": kind, "xs": [], "p": p, "a": a, "n": n}, xs)
+
+    status = C.isolated(feed, timeout=1500)
+    if status.startswith("exit"):
+        raise C.ToolFailure("statistics route driver failed (%s)" % status)
+    rows = [l for l in open(trace).read().split("\n") if l.endswith("}")]
+    open(trace, "w").write("\n".join(rows) + ("\n" if rows else ""))
+    x = len(rows)
+    nroutes = sum(len(json.loads(l)["routes"]) for l in rows)
+    if status != "ok":
+        ck.violation({"where": "implementation", "reason": "jls_statistics_* crashed or did not return (%s)" % status, "after_sequences": x})
     ck.log("executed %d evaluation routes on the real jls_statistics_* over %d sequences" % (nroutes, x))
     v = C.validate_independent("StatsTrace", "StatsTrace.cfg", trace, parts=8, timeout=2400)
     ck.log("trace validation: %d/%d sequences, %d rejection(s)" % (v.consumed, v.total, len(v.rejections)))
@@ -181,5 +229,5 @@ def run(tier):
     ck.cov["graph_states_replayed"] = len(seqs)
     ck.cov["rule"] = "one case per sample sequence (every state of StatsRoutes.tla, seeded longer ones, structured 10^4-sample streams), each with all its evaluation routes; all sequences are distinct"
     ck.cov["samples"] = [l[:300] for l in open(trace).read().split("\n")[5:7]]
-    ck.assumptions += ["integer-valued samples: every intermediate is exactly representable or within 1e-6 of it; loss of precision over many decades of magnitude or with a large offset is not decided (DESIGN section 7)"]
+    ck.assumptions += ["integer-valued samples: every intermediate is exactly representable or within 1e-6 of it; large offsets (3e7 .. 1e9, spread +-3) are judged through shift invariance with a 1e-3 relative bound on s; loss of precision over many decades of magnitude within one sequence is not decided (DESIGN section 7)"]
     return ck.finish()
